@@ -75,4 +75,14 @@ CHECKS["C19"] = dict(
     design="5 C19", note=L3_NOTE,
     technique="TLC invariant IdemInv on the walker spec + two-pass replay of every TLC state on the real CLI, byte comparison")
 
+CHECKS["C12"] = dict(
+    level="model_checking",
+    text="TLC enumerates spec/RedactorNS.tla (every declared verb x component x message x holder x attr.ns present/absent; aggregate x 10 "
+         "namespace-bearing stage forms x 5 nestings), the envelope walk and the grammar seeds; every state is replayed through the real "
+         "CLI with and without --redactNamespaces using per-line planted names of several shapes. Verdict: whole-line absence of the "
+         "planted names, functional + injective name->pseudonym mapping within and across lines with dotted structure kept, and the "
+         "diff against the flag-off run confined to the grammar's `ns` positions - three whole-line / cross-line relations.",
+    design="5 C12", note=L3_NOTE,
+    technique="TLA+ namespace generator + grammar `ns` labels (TLC) replayed on the real CLI with/without -w; absence, consistency and confinement judges")
+
 NOT_YET = {}
